@@ -67,6 +67,12 @@ func runMassiveVerdict(c Case) []Diff {
 				noteKnown("c02.massive-indent-char-switch-between-roots")
 				break
 			}
+			if simple == nil && classify(err) == "nilstack" && listRootBeforeHeading(doc) {
+				// known finding: whether an unindented list row before the first heading is a root depends on
+				// whether another worker has already parsed a heading (parser shared by the generator workers)
+				noteKnown("c02.massive-list-roots-before-heading-roots")
+				break
+			}
 			if err == nil && wrongCharRow(doc, simple) {
 				// known finding: a row indented with the other blank than the document's is rejected by the
 				// simple mode; in the massive mode another worker's root row may have reset the shared parser's
@@ -114,6 +120,20 @@ func wrongCharRow(doc []byte, simpleErr error) bool {
 }
 
 // mixesIndentChars: some row is indented with a tab and some other row with a space
+// listRootBeforeHeading: an unindented list row comes before the first heading row
+func listRootBeforeHeading(doc []byte) bool {
+	list := false
+	for _, l := range strings.Split(string(doc), "\n") {
+		if strings.HasPrefix(l, "#") {
+			return list
+		}
+		if strings.HasPrefix(l, "-") || strings.HasPrefix(l, "*") || strings.HasPrefix(l, "+") {
+			list = true
+		}
+	}
+	return false
+}
+
 func mixesIndentChars(doc []byte) bool {
 	tab, space := false, false
 	for _, l := range strings.Split(string(doc), "\n") {
